@@ -113,7 +113,7 @@ def portStems : List Str → List TStem
 /-- `for element in reversed(x.split(".")): lru.append("h:" + element)` -/
 def labelStems (s : Str) : List TStem := (splitChar '.' s).reverse.map (fun l => ('h', l))
 
-/-- stems.py:64-70, the `should_process_normally` branch on `netloc[0]` -/
+/-- stems.py:69-75, the `should_process_normally` branch on `netloc[0]` -/
 def normalHostStems (host0 : Str) : List TStem :=
   if host0.head? == some '[' || isSpecialHost host0 then [('h', host0)] else labelStems host0
 
@@ -126,27 +126,30 @@ def splitSuffixParsed (netloc : Str) : Option (Str × Str) :=
   let h := pyHostname netloc
   if h = [] then none else if isSpecialHost h then none else splitSuffix h
 
-/-- stems.py:50-62 on the answer of `split_suffix` -/
+/-- stems.py:55-67 on the answer of `split_suffix` -/
 def hostStemsOfSplit (host0 : Str) : Option (Str × Str) → List TStem
   | none => normalHostStems host0
   | some (domain, suffix) => ('h', suffix) :: (if domain ≠ [] then labelStems domain else [])
 
-/-- stems.py:47-70 -/
+/-- stems.py:47-75.  Lines 47-50 first: `if netloc[0].startswith("["): suffix_aware = False` —
+a bracketed ip literal has no public suffix, `split_suffix` is not consulted (its zone id or
+IPvFuture text may well end with one: `[fe80::1%eth0.com]`, `[v1.a.com]`) -/
 def hostStems (sa : Bool) (netloc host0 : Str) : List TStem :=
+  let sa := sa && !(host0.head? == some '[')
   if sa then hostStemsOfSplit host0 (splitSuffixParsed splitSuffix netloc) else normalHostStems host0
 
-/-- stems.py:73-74: `for element in path.split("/")[1:]` -/
+/-- stems.py:78-79: `for element in path.split("/")[1:]` -/
 def pathStems (path : Str) : List TStem := (splitChar '/' path).tail.map (fun e => ('p', e))
 
-/-- `if x: lru.append(tag + x)` for a `str` (stems.py:25, 77, 81) -/
+/-- `if x: lru.append(tag + x)` for a `str` (stems.py:25, 82, 86) -/
 def strStem (tag : Char) (x : Str) : List TStem := if x ≠ [] then [(tag, x)] else []
 
-/-- `if x: …` for `None | str` (stems.py:85, 89) -/
+/-- `if x: …` for `None | str` (stems.py:90, 94) -/
 def optStem (tag : Char) : Option Str → List TStem
   | none => []
   | some x => strStem tag x
 
-/-- `lru_stems_from_parsed_url(parsed_url, suffix_aware)` (stems.py:21-91), stems as pairs -/
+/-- `lru_stems_from_parsed_url(parsed_url, suffix_aware)` (stems.py:21-96), stems as pairs -/
 def lruStemsT (sa : Bool) (p : Parts) : List TStem :=
   let pieces := portSplit (hostportOf p.netloc)
   strStem 's' p.scheme
